@@ -163,6 +163,10 @@ def stepPure (toks : List String) : Option String :=
       let tl ← (if tlv == "-" then some [] else parseHex tlv.toList)
       let m : MintIn := { token2022 := p22, native := native, freeze := freeze, tlv := tl, badge := badge }
       pure (match initializeRewardIx (ver == 2) auth (min idx 255) ninit m with | .ok i => s!"ok {i}" | .error e => "err " ++ e)
+  | ["xini", "migr", pre, _signed] => do
+      -- migrate_repurpose_reward_authority_space: permissionless; refuses (panics) a pool already migrated
+      let pre ← pre.toNat?
+      pure (if pre = 0 then "err Panic" else "ok")
   | ["xini", "cext", auth, pre] => do
       let auth ← auth.toNat?; let pre ← pre.toNat?
       pure (match initializeConfigExtensionIx auth (pre == 1) (pre == 2) with | .ok _ => "ok" | .error e => "err " ++ e)
